@@ -55,6 +55,8 @@ def plan(tier, seed):
             items.append(dict(arch=arch, q=q, dev=dev))
     for arch in ([1, 1, 1], [2, 1, 2], [2, 2, 1], [3, 2, 2]):
         items.append(dict(arch=arch, scope="stateful"))
+    for arch in [[1, 1, 1], [2, 1, 2], [2, 2, 1], [3, 2, 2]] + ([] if tier == "quick" else [[3, 3, 2], [4, 2, 2]]):
+        items.append(dict(arch=arch, scope="sampler"))
     return items
 
 
@@ -117,6 +119,16 @@ def check_case(acc, arch, params, st=None, history=None):
         f4 = L.cplx.numpy(call(st.rho, space, expand=False))
         if f4.shape != (D,) or not close(f4.real / p, np.ones(D), 1e-12) or np.any(f4.imag != 0):
             bad("rho:form:expand-false-vp-omitted", f4, p)
+        # the SAME tensor object passed as both arguments (the natural way to ask for the diagonal), paired and
+        # expanded, with the argument left untouched
+        keep = space.clone()
+        f4b = L.cplx.numpy(call(st.rho, space, space, expand=False))
+        dg = np.diag(full)  # same function, matrix form (itself compared with the reported probability above)
+        if f4b.shape != (D,) or not close(f4b / np.abs(dg), dg / np.abs(dg), 1e-12, at=1e-12):
+            bad("rho:form:same-object-twice-expand-false", f4b, dg)
+        f4c = L.cplx.numpy(call(st.rho, space, space))
+        if not close(scaled(f4c), s_full, 1e-12, at=1e-12) or not torch.equal(space, keep):
+            bad("rho:form:same-object-twice", f4c, full)
         m = max(1, D // 2)
         f5 = L.cplx.numpy(call(st.rho, space, space[:m]))
         if f5.shape != (D, m) or not close(f5 / scale[:, :m], s_full[:, :m], 1e-12, at=1e-12):
@@ -165,8 +177,68 @@ def run_stateful(acc, arch, upto=None):
         check_case(acc, arch, seq[i + 1], st=st, history=hist)
 
 
+def run_sampler(acc, arch, only=None):
+    """'...the unnormalised probabilities the model reports AND SAMPLES FROM': the block-Gibbs kernel assembled from
+    the library's own conditionals - called the way gibbs_steps calls them, i.e. writing into running out= buffers
+    that still hold the previous 0/1 state - leaves diag(rho)/tr(rho) invariant and satisfies detailed balance with
+    it.  Exhaustive over every visible state and every (hidden, auxiliary) configuration; no sampling."""
+    import itertools
+    nv, nh, na = arch
+    D = 2 ** nv
+    for q, params in enumerate(stateful_seq(arch)[:4]):
+        if only is not None and q != only:
+            continue
+        case = dict(kind="mixed", arch=arch, params=params, scope="sampler", q=q)
+        st = build_state("mixed", arch, params)
+        rbm = st.rbm_am
+        acc.ev(1, nontrivial=True)
+        try:
+            space = call(st.generate_hilbert_space)
+            pi = (call(st.probability, space) / call(st.normalization, space)).numpy()
+            H_ = torch.tensor(list(itertools.product([0.0, 1.0], repeat=nh)), dtype=torch.double)
+            A_ = torch.tensor(list(itertools.product([0.0, 1.0], repeat=na)), dtype=torch.double)
+            HA = [(h, a) for h in H_ for a in A_]
+            Hs, As = torch.stack([h for h, _ in HA]), torch.stack([a for _, a in HA])
+            forms = {}
+            for fill in (None, 1.0, 0.0):
+                def buf(*shape):
+                    return None if fill is None else torch.full(shape, fill, dtype=torch.double)
+                ph = call(rbm.prob_h_given_v, space, out=buf(D, nh)).clone().numpy()
+                pa = call(rbm.prob_a_given_v, space, out=buf(D, na)).clone().numpy()
+                pv = call(rbm.prob_v_given_ha, Hs, As, out=buf(len(HA), nv)).clone().numpy()
+                forms[fill] = (ph, pa, pv)
+            for fill in (1.0, 0.0):
+                if any(not np.array_equal(x, y) for x, y in zip(forms[fill], forms[None])):
+                    acc.viol("sampler:conditional-depends-on-previous-content-of-out-buffer", case, observed=[x.tolist() for x in forms[fill]], expected=[x.tolist() for x in forms[None]],
+                             detail=dict(prefill=fill))
+                    return
+            ph, pa, pv = forms[1.0]
+            sp = space.numpy()
+            K = np.zeros((D, D))
+            for i in range(D):
+                for c, (h, a) in enumerate(HA):
+                    w = np.prod(np.where(h.numpy() > 0, ph[i], 1 - ph[i])) * np.prod(np.where(a.numpy() > 0, pa[i], 1 - pa[i]))
+                    K[i] += w * np.prod(np.where(sp > 0, pv[c], 1 - pv[c]), axis=1)
+            if not close(K.sum(1), np.ones(D), 1e-12):
+                acc.viol("sampler:kernel-rows-do-not-sum-to-one", case, observed=K.sum(1))
+            elif not close(pi @ K, pi, 1e-10, at=1e-12):
+                acc.viol("sampler:reported-distribution-not-invariant-under-the-gibbs-kernel", case, observed=pi @ K, expected=pi)
+            elif not close(pi[:, None] * K, (pi[:, None] * K).T, 1e-10, at=1e-13):
+                acc.viol("sampler:detailed-balance-with-reported-distribution", case, observed=pi[:, None] * K)
+            acc.transitions += D * len(HA)
+            acc.outcome(sha(np.round(K, 6)))
+        except LibRaised as e:
+            acc.viol(f"sampler:raised:{e.kind}", case, observed=e.tb)
+
+
 def run_item(item):
     acc = Acc()
+    if item.get("scope") == "sampler":
+        run_sampler(acc, item["arch"])
+        acc.sample(dict(kind="mixed", arch=item["arch"], scope="sampler", conditionals=["h|v", "a|v", "v|h,a"], out_buffers=["none", "ones", "zeros"]), cap=1)
+        acc.states = acc.evaluations
+        acc.traces = acc.evaluations
+        return acc
     if item.get("scope") == "stateful":
         run_stateful(acc, item["arch"])
         acc.sample(dict(kind="mixed", arch=item["arch"], scope="stateful", updates=["copy_", "rebind", "load_state_dict", "add_"]), cap=1)
@@ -186,6 +258,9 @@ def run_item(item):
 
 def replay(case):
     acc = Acc()
+    if case.get("scope") == "sampler":
+        run_sampler(acc, case["arch"], only=case.get("q"))
+        return acc
     if case.get("history"):
         run_stateful(acc, case["arch"])
         return acc
